@@ -6,7 +6,7 @@ from ref import choice as RC, jsonpath as JP
 PROP = "C14"
 TS = ["2030-03-17T17:46:40Z", "2030-03-17T23:16:40+05:30", "2030-03-17T14:01:41-03:45"]   # first two are the same instant
 MISSING = "__missing__"
-VALUES = [MISSING, None, 0, 1, 1.5, True, False, "", "a", "A", "a*c", "abc", "a?c", "a\\c", "a]c", TS[0], TS[1], TS[2], [], {}]
+VALUES = [MISSING, None, 0, 1, 1.5, 0.0, 1.0, True, False, "", "a", "A", "a*c", "abc", "a?c", "a\\c", "a]c", TS[0], TS[1], TS[2], [], {}]
 PATTERNS = ["a*c", "a?c", "a\\*c", "*", "", "a[bc]c", "a.c", "ab*", "*c", "a\\\\c", "a]c"]
 
 def base_cases(tier):
@@ -92,6 +92,27 @@ def machines(tier):
                         st["Default"] = "D"
                     d = {"StartAt": "C", "States": {"C": st, "M1": mk("M1"), "M2": mk("M2"), "D": mk("D")}}
                     out.append((d, inp, "revisit"))
+    # one engine process evaluates many Choice states one after the other: what an earlier execution looked at (a missing Variable, false,
+    # 0.0, true, 1.0 - values that compare or hash alike in Python) must not colour a later one.  Run as ONE batch, in this order and reversed.
+    order = [MISSING, 0.0, False, 0, 1.0, True, 1, None, "", "0"]
+    seq = []
+    for vs in (order, order[::-1]):
+        for v in vs:
+            for r in ({"Variable": "$.v", "NumericLessThanEquals": 0}, {"Variable": "$.v", "IsNumeric": True}, {"Variable": "$.v", "NumericEquals": 1},
+                      {"Variable": "$.v", "BooleanEquals": True}, {"Variable": "$.v", "IsBoolean": True}, {"Variable": "$.v", "NumericEqualsPath": "$.w"}):
+                d = {"StartAt": "C", "States": {"C": {"Type": "Choice", "Choices": [dict(r, Next="M1")], "Default": "D"}, "M1": mk("M1"), "D": mk("D")}}
+                seq.append((d, dict({} if v is MISSING else {"v": v}, w=1), "sequence"))
+    out += seq
+    # Variable and *Path operands that point into the Context Object ($$): resolved against the context, not against the input
+    for v in ("e", "x", 1, 2, True):
+        inp = {"v": v, "n": 1, "Execution": {"Name": "decoy"}}
+        rules = [{"Variable": "$.v", "StringEqualsPath": "$$.Execution.Name"}, {"Variable": "$$.Execution.Name", "StringEquals": v if isinstance(v, str) else "e"},
+                 {"Variable": "$.v", "NumericEqualsPath": "$$.Execution.Input.n"}, {"Variable": "$$.Execution.Input.v", "NumericGreaterThanPath": "$.n"},
+                 {"Variable": "$$.State.Name", "StringEqualsPath": "$.v"}, {"Variable": "$.v", "StringGreaterThanPath": "$$.State.Name"}]
+        for r0 in rules:
+            for r in (r0, {"Not": r0}):
+                d = {"StartAt": "C", "States": {"C": {"Type": "Choice", "Choices": [dict(r, Next="M1")], "Default": "D"}, "M1": mk("M1"), "D": mk("D")}}
+                out.append((d, inp, "context"))
     # InputPath != '$' (the *Path operand and the Variable are relative to the effective input), OutputPath
     for v, w in itertools.product([0, 1, "a"], repeat=2):
         for op in ("NumericEqualsPath", "StringEqualsPath"):
@@ -108,7 +129,7 @@ def expected(d, inp):
     st = d["States"]["C"]
     try:
         eff = JP.get(inp, st.get("InputPath", "$"))
-        nxt = RC.choose(st, eff, {})
+        nxt = RC.choose(st, eff, {"Execution": {"Name": "e", "Input": inp}, "State": {"Name": "C"}})
     except RC.NoChoiceMatched:
         return ("FAILED", "States.NoChoiceMatched")
     except RC.Ambiguous:
@@ -153,7 +174,16 @@ def run(tier, seed):
     ms = machines(tier)
     n = len(ms)
     step = 250
-    chunks = [(tier, lo, min(n, lo + step)) for lo in range(0, n, step)]
+    # the "sequence" family is one contiguous block and must run in one engine process, in order: its own chunk
+    seq_idx = [i for i, m in enumerate(ms) if m[2] == "sequence"]
+    cuts = sorted(set(list(range(0, n, step)) + ([seq_idx[0], seq_idx[-1] + 1] if seq_idx else []) + [n]))
+    chunks = [(tier, lo, hi) for lo, hi in zip(cuts, cuts[1:]) if not (seq_idx and seq_idx[0] < lo < seq_idx[-1] + 1) or True]
+    chunks = []
+    lo = 0
+    for c in cuts[1:]:
+        if seq_idx and seq_idx[0] < c <= seq_idx[-1] and c != seq_idx[-1] + 1:
+            continue          # no cut inside the sequence block
+        chunks.append((tier, lo, c)); lo = c
     ctx = multiprocessing.get_context("fork")
     with ctx.Pool(common.JOBS) as pool:
         outs = pool.map(_batch, chunks, chunksize=1)
